@@ -68,6 +68,10 @@ type NetPlan struct {
 	// blocks still pass (votes travel as separate small messages; a checkpoint then stays unjustified
 	// and the next epoch's votes link over it)
 	Blackouts [][2]int `json:"vote_blackouts,omitempty"`
+	// RestartAfterTamper: percent of tampered block deliveries after which the receiving node is
+	// restarted at once (a fault placed where in-flight state exists: what the node holds in memory
+	// for that block is then rebuilt from what it wrote)
+	RestartAfterTamper int `json:"restart_after_tamper_pct,omitempty"`
 }
 
 func genNet(rt *rapid.T) any {
@@ -91,6 +95,9 @@ func genNet(rt *rapid.T) any {
 	}
 	if rapid.IntRange(0, 2).Draw(rt, "garbleq") == 2 {
 		p.GarblePct = rapid.IntRange(5, 40).Draw(rt, "garble")
+		if rapid.Bool().Draw(rt, "restartaftertamperq") {
+			p.RestartAfterTamper = rapid.IntRange(10, 60).Draw(rt, "restartaftertamper")
+		}
 	}
 	if rapid.IntRange(0, 3).Draw(rt, "isoq") == 3 {
 		p.Isolate = 1 + rapid.IntRange(0, 3).Draw(rt, "iso")
@@ -145,6 +152,8 @@ type netMsg struct {
 	block *types.Block
 	vmsg  *casper.ValidCasperSignMsg
 	fetch *bc.Hash // request: "send me this block" (served from the sender's store)
+	// tampered: a relay changed the header's sup links in flight
+	tampered bool
 }
 
 type msgHeap []*netMsg
@@ -311,6 +320,7 @@ func (nt *Net) garble(m *netMsg) *netMsg {
 	nt.W.R.Count("fault.header_suplinks_tampered", 1)
 	cp := *m
 	cp.block = b
+	cp.tampered = true
 	return &cp
 }
 
@@ -443,6 +453,17 @@ func (nt *Net) deliver(m *netMsg) {
 		r.Count("net.block_delivered", 1)
 		if err != nil {
 			r.Count("net.block_rejected", 1)
+		}
+		if m.tampered && !nt.draining && nt.P.RestartAfterTamper > 0 && nt.draw(100) < nt.P.RestartAfterTamper {
+			nt.drainVotes(m.to)
+			if rerr := nt.startNode(m.to, nt.Nodes[m.to].Disk.Clone()); rerr != nil {
+				r.Violate("restart-fails", "after-tampered-block", "node%d does not restart from its durable state after a block with tampered header sup links: %v", m.to, rerr)
+				return
+			}
+			synctest.Wait()
+			n = nt.Nodes[m.to]
+			r.Count("fault.restart_after_tampered_block", 1)
+			r.Tracef("node%d restarted after a tampered block", m.to)
 		}
 		if orphan && m.from >= 0 {
 			// like the sync reactor: ask the sender for the missing parent, once per
@@ -1161,7 +1182,7 @@ func specNet(prop string, or NetOracles, rule string) simkit.Spec {
 			" Non-trivial = at least one checkpoint beyond genesis was finalized; distinct = hash of the event trace",
 		Components: nodeComponents,
 		FaultKinds: []string{"fault.drop", "fault.duplicate", "fault.delay_over_a_slot", "fault.partition", "fault.partition_drop", "fault.heal", "fault.restart",
-			"fault.header_suplinks_tampered", "fault.isolate_node", "fault.vote_blackout_drop", "fault.byz_equivocating_block", "fault.byz_double_vote", "fault.byz_surround_vote", "fault.replayed_old_vote", "fault.garbage_signature_vote", "fault.nonvalidator_vote"},
+			"fault.header_suplinks_tampered", "fault.restart_after_tampered_block", "fault.isolate_node", "fault.vote_blackout_drop", "fault.byz_equivocating_block", "fault.byz_double_vote", "fault.byz_surround_vote", "fault.replayed_old_vote", "fault.garbage_signature_vote", "fault.nonvalidator_vote"},
 		Probes:      []string{"probe.finalized_checkpoints", "probe.justified_checked", "votes.signed_by_honest", "net.orphan_parent_requested"},
 		Assumptions: []string{"fault bound: at most floor((V-1)/3) Byzantine validators, i.e. one of four and none otherwise", "gossip policy is a stub: every message goes to every connected node subject to the drawn faults; TCP/MConnection/peer discovery are not simulated"},
 	}
